@@ -403,6 +403,11 @@ def block_scope_matrix(ck, prop):
         ("let-in", "let f = 1 in {\n%s}\n", False),
         ("if-in-foreach", "foreach i = [1] in {\n  if 1 then {\n%s  }\n}\n", False),
         ("multiclass", "multiclass MM<int q> {\n%s}\ndefm inst : MM<1>;\n", True),
+        # a defset opens no scope of its own: what its body declares belongs to the block around it and ends with that block
+        ("defset-in-let", "let f = 1 in {\n  defset list<K> SL = {\n%s  }\n}\n", False),
+        ("defset-in-foreach", "foreach i = [1] in {\n  defset list<K> SF = {\n%s  }\n}\n", False),
+        ("defset-in-if", "if 1 then {\n  defset list<K> SI = {\n%s  }\n}\n", False),
+        ("defset-in-else", "if 0 then {\n  def Dm3 : K<1>;\n} else {\n  defset list<K> SE = {\n    defset list<K> SE2 = {\n%s    }\n  }\n}\n", False),
     ]
     prefixes = [
         ("first", ""),
